@@ -205,7 +205,7 @@ func ruleDeepCopy(c *Ctx, r *Report, prefix string) {
 		}
 		for i := 0; i < st.NumFields(); i++ {
 			f := st.Field(i)
-			key := FnName(fn) + ":" + f.Name()
+			key := FnName(fn) + ":" + refNameOf(f)
 			ok := paired[f]
 			if whole != nil && !containsRef(f.Type(), 0) {
 				ok = true // copied by `*dst = *src`
